@@ -12,6 +12,7 @@ from __future__ import annotations
 
 import re
 import traceback
+import warnings
 from decimal import Decimal
 
 from wcwidth import wcwidth
@@ -46,6 +47,18 @@ REQUIRE = {
     "mode:narrow": 8,
     "mode:str": 100,
     "view_shifted_observations": 500,
+    "form:FloatEdit:kw": 2,
+    "form:FloatEdit:dep_kw": 2,
+    "form:FloatEdit:dep_pos": 2,
+    "form:FloatEdit:mixed": 2,
+    "form:FloatEdit:defaults": 2,
+    "form:IntegerEdit:kw": 2,
+    "form:IntegerEdit:pos_base": 2,
+    "form:IntegerEdit:defaults": 2,
+    "form:IntEdit:pos": 2,
+    "form:IntEdit:kw": 2,
+    "form:IntEdit:defaults": 2,
+    "numeric_constructed_through_deprecated_option": 5,
     "sweep_sessions": 40,
     "random_sessions": 80,
 }
@@ -57,7 +70,9 @@ RULE = (
     "wide printable / a click on every cell applied from that state (state restored with set_edit_text/set_edit_pos "
     "between probes); (b) random 5..40-op histories of printables, left/right/up/down/home/end, backspace, delete, "
     "enter, tab, unused keys, clicks (after a focused or unfocused render), other mouse buttons, unfocused renders "
-    "and resizes; numeric variants with their option ranges and near-alphabet keys; distinct = distinct "
+    "and resizes; numeric variants with their option ranges, built through every documented constructor form "
+    "(new keywords, deprecated preserveSignificance/decimalSeparator keywords and positionals, positional base, "
+    "defaults) and judged against the effective configuration, and near-alphabet keys; distinct = distinct "
     "descriptors; non-trivial = at least one op judged"
 )
 ASSUMES = [
@@ -183,10 +198,17 @@ def gen_ops(rng, enc, width, n, numeric=False):
             ops.append(["click", rng.randrange(width), rng.choice([0, 0, 0, 1, 1, 2, 3, 5]), 1, rng.random() < 0.75])
         elif r < 0.975:
             ops.append(["click", rng.randrange(width), rng.randint(0, 2), rng.choice([2, 3, 4, 5]), True])
-        elif r < 0.99:
+        elif r < 0.985:
             ops.append(["render", rng.random() < 0.4])
-        else:
+        elif r < 0.99:
             ops.append(["resize", rng.randint(1, 20)])
+        else:
+            # a row move, a width change near the current width, another row move: the preferred column
+            # remembered for the old width must not be used for the new one
+            ops.append(["key", rng.choice(["up", "down", "end", "home"])])
+            ops.append(["key", rng.choice(["up", "down"])])
+            ops.append(["resize", max(1, min(20, width + rng.choice([-3, -2, -1, 1, 2, 3, 6])))])
+            ops.append(["key", rng.choice(["up", "down"])])
     return ops
 
 
@@ -265,6 +287,21 @@ def gen_numeric(rng):
         d["sep"] = rng.choice([".", ".", ","])
         d["preserve"] = rng.random() < 0.6
         d["default"] = rng.choice([None, "", "3.1415", "1.065434", "0.5", "10", 12, "100.00", "7."])
+    # constructor entry point (the effective configuration above must mean the same through each of them)
+    if cls == "IntEdit":
+        d["form"] = rng.choice(["pos", "kw", "defaults"])
+        if d["form"] == "defaults":
+            d["caption"], d["default"] = "", None
+    elif cls == "IntegerEdit":
+        d["form"] = rng.choice(["kw", "kw", "pos_base", "defaults"])
+        if d["form"] == "defaults":
+            d["base"], d["neg"] = 10, False
+            if isinstance(d["default"], str):
+                d["default"] = "".join(c for c in d["default"] if c in "0123456789")
+    else:
+        d["form"] = rng.choice(["kw", "dep_kw", "dep_pos", "mixed", "defaults"])
+        if d["form"] == "defaults":
+            d["sep"], d["preserve"] = ".", True
     d["ops"] = gen_ops(rng, enc, width, rng.randint(5, 40), numeric=True)
     return d
 
@@ -354,16 +391,43 @@ class Session:
             from urwid import numedit
 
             dflt = d.get("default")
-            if cls == "IntEdit":
-                self.w = urwid.IntEdit(capm, dflt)
-                self.numeric = {"alphabet": set("0123456789"), "negative": False, "trim": True}
-            elif cls == "IntegerEdit":
-                self.w = numedit.IntegerEdit(capm, dflt, base=d["base"], allow_negative=d["neg"])
-                al = "0123456789ABCDEFGHIJKLMNOPQRSTUVWXYZ"[: d["base"]]
-                self.numeric = {"alphabet": set(al) | set(al.lower()), "negative": d["neg"], "trim": d["base"] == 10}
-            else:
-                self.w = numedit.FloatEdit(capm, dflt, preserve_significance=d["preserve"], decimal_separator=d["sep"], allow_negative=d["neg"])
-                self.numeric = {"alphabet": set("0123456789" + d["sep"]), "negative": d["neg"], "trim": True}
+            form = d.get("form", "kw")
+            self.sink.count(f"form:{cls}:{form}")
+            with warnings.catch_warnings(record=True) as wlog:
+                warnings.simplefilter("always")
+                if cls == "IntEdit":
+                    if form == "defaults":
+                        self.w = urwid.IntEdit()
+                    elif form == "kw":
+                        self.w = urwid.IntEdit(caption=capm, default=dflt)
+                    else:
+                        self.w = urwid.IntEdit(capm, dflt)
+                    self.numeric = {"alphabet": set("0123456789"), "negative": False, "trim": True}
+                elif cls == "IntegerEdit":
+                    if form == "defaults":
+                        self.w = numedit.IntegerEdit(capm, dflt)
+                    elif form == "pos_base":
+                        self.w = numedit.IntegerEdit(capm, dflt, d["base"], allow_negative=d["neg"])
+                    else:
+                        self.w = numedit.IntegerEdit(capm, dflt, base=d["base"], allow_negative=d["neg"])
+                    al = "0123456789ABCDEFGHIJKLMNOPQRSTUVWXYZ"[: d["base"]]
+                    self.numeric = {"alphabet": set(al) | set(al.lower()), "negative": d["neg"], "trim": d["base"] == 10}
+                else:
+                    # the effective configuration is (sep, preserve, neg) whatever the entry point
+                    if form == "defaults":
+                        self.w = numedit.FloatEdit(capm, dflt, allow_negative=d["neg"])
+                    elif form == "dep_kw":
+                        self.w = numedit.FloatEdit(capm, dflt, preserveSignificance=d["preserve"], decimalSeparator=d["sep"], allow_negative=d["neg"])
+                    elif form == "dep_pos":
+                        self.w = numedit.FloatEdit(capm, dflt, d["preserve"], d["sep"], allow_negative=d["neg"])
+                    elif form == "mixed":
+                        self.w = numedit.FloatEdit(capm, dflt, decimalSeparator=d["sep"], preserve_significance=d["preserve"], allow_negative=d["neg"])
+                    else:
+                        self.w = numedit.FloatEdit(capm, dflt, preserve_significance=d["preserve"], decimal_separator=d["sep"], allow_negative=d["neg"])
+                    self.numeric = {"alphabet": set("0123456789" + d["sep"]), "negative": d["neg"], "trim": True}
+            ndep = sum(1 for x in wlog if issubclass(x.category, DeprecationWarning))
+            if ndep:
+                self.sink.count("numeric_constructed_through_deprecated_option", 1)
             if d["align"] != "left":
                 self.w.align = d["align"]
             if d["wrap"] != "space":
